@@ -103,6 +103,28 @@ def job_refuse_one(j):
         one = r.call(inv.read_setting, s0.id_)
         if one[0] == 'exc' and one[1] not in ('ValueError', 'RequestRejectedException'):
             vio.append((f'read_setting-only-ValueError/{cfg["family"]}/{one[1]}/one-register-refused', f'read_setting({s0.id_!r}): {one[1:]}'))
+    # ... and runs of 4..6 settings that follow each other in settings() order are refused together: every listed id is
+    # still reported (None for the refused ones), a streak of failures must not end the bulk read early
+    allsets = [s for s in probe.inv.settings() if s.offset > 1000]
+    for i in range(part, len(allsets), nparts):
+        for run in (4, 6):
+            grp = allsets[i:i + run]
+            if len(grp) < run:
+                continue
+            r = make_rig(cfg, fill=FILLS['all-0000'])
+            inv, dev = r.inv, r.dev
+            r.call(inv.read_device_info)
+            dev.refused = list(dev.refused) + [(s.offset, s.offset) for s in grp]
+            before = [s.id_ for s in inv.settings()]
+            res = r.call(inv.read_settings_data)
+            n += 1
+            if res[0] == 'ok':
+                missing = [x for x in before if x not in res[1]]
+                if missing:
+                    vio.append((f'settings-data-every-id/{cfg["family"]}/several-registers-refused',
+                                f'{run} settings from {grp[0].id_} on refused: {len(missing)} listed ids missing from the result, e.g. {missing[:3]}'))
+            elif res[0] == 'hang' or res[1] not in ('RequestRejectedException', 'RequestFailedException', 'MaxRetriesException'):
+                vio.append((f'settings-data-total/{cfg["family"]}/{res[1] if res[0] == "exc" else res[0]}/several-registers-refused', str(res)[:100]))
     out = {}
     for key, cause in vio:
         out.setdefault(key, []).append(dict(key=key, clause=key.split('/')[0], replay=dict(kind='refuse-one', cfg=cfg, part=part, nparts=nparts),
